@@ -20,12 +20,54 @@ def build(case):
     return cpu
 
 
+# ---------------------------------------------------------------------------------------------- bystander instance
+# One further ArmV6 stays alive in every worker process with a recognisable state and its own small memory. Nothing a case does - constructing
+# instances, stepping them, taking exceptions - may change it ("every other register and memory byte is left unchanged" includes the ones of
+# another processor object). Re-armed after a report so that one defect does not cascade.
+_BY = {}
+
+
+def _arm_bystander():
+    cpu = target.new_cpu(None, False, [(0x4000, 0x40)])
+    st = {'R.R%dusr' % i: 0x5E000000 + i for i in range(13)}
+    st.update({'R.PC': 0x4010, 'R.SPsvc': 0x5E5E0000, 'R.LRirq': 0x5E5E0004, 'cpsr': 0x600001D3, 'spsr_svc': 0x100001D0})
+    target.apply_state(cpu, st)
+    target.poke(cpu, 0x4000, bytes(range(0x40)))
+    _BY['cpu'] = cpu
+    _BY['snap'] = target.snapshot(cpu, True)
+
+
+def bystander_check():
+    """{} or {key: (expected, observed)} for the bystander; call after a case has run"""
+    if 'cpu' not in _BY:
+        _arm_bystander()
+        return {}
+    now = target.snapshot(_BY['cpu'], True)
+    if now == _BY['snap']:
+        return {}
+    d = {'bystander:' + k: (_BY['snap'].get(k), now.get(k)) for k in now if now.get(k) != _BY['snap'].get(k)}
+    _arm_bystander()
+    return d
+
+
 def run(case, with_mem=True):
     """returns (cpu, pre, [post per step], [exception or None per step])"""
+    if 'cpu' not in _BY:
+        _arm_bystander()
     cpu = build(case)
     pre = target.snapshot(cpu, with_mem)
     posts, excs = [], []
-    for _ in range(case.get('steps', 1)):
+    inject = case.get('inject') or {}
+    for i in range(case.get('steps', 1)):
+        api = inject.get(str(i))
+        if api:
+            # what an embedder does between steps: interrupt injection, reset, event signalling (the states reached this way are valid machine states)
+            try:
+                (getattr(cpu.registers, api, None) or getattr(cpu, api))()
+            except Exception as ex:       # noqa: BLE001 - reported by the caller like an escaping step exception
+                excs.append(ex)
+                posts.append(target.snapshot(cpu, with_mem))
+                break
         e = target.step_budget(cpu)
         excs.append(e)
         posts.append(target.snapshot(cpu, with_mem))
